@@ -42,7 +42,8 @@ def gen_case(rng, cfg, idx):
         return {"kind": "hist", "prog": c["prog"], "L": c["L"], "kseed": rng.randrange(1 << 30)}
     steps = []
     n = rng.randint(4, 14)
-    acts = ["backward", "view", "read", "nullgrad", "use", "inplace", "backward", "untracked", "useview", "readview", "backward_view", "inplace_view"]
+    acts = ["backward", "view", "read", "nullgrad", "use", "inplace", "backward", "untracked", "useview", "readview", "backward_view", "inplace_view",
+            "use_advidx", "use_boolidx", "use_einsum", "use_as_value", "nullgrad_discview", "view", "backward"]
     for _ in range(n):
         steps.append(rng.choice(acts))
     return {"kind": "life", "steps": steps, "shape": [rng.randint(2, 3)] * rng.randint(1, 2), "kseed": rng.randrange(1 << 30)}
@@ -177,6 +178,7 @@ def run_life(case, cnt, viol, sets):
     shape = tuple(case["shape"])
     x = mg.tensor(np.arange(1.0, 1.0 + int(np.prod(shape))).reshape(shape))
     conn = []           # connected views (x[0:1]) of the current epoch
+    disc = []           # views severed by a backward pass
     have = False        # reference state machine: does x hold a gradient?  (None = not judged until the next definite event)
     expected = None
     for i, s in enumerate(case["steps"]):
@@ -202,10 +204,33 @@ def run_life(case, cnt, viol, sets):
             x.null_grad()
             have, expected = False, None
             conn_after = conn
-        elif s == "use":
-            y = x * 2.0
+        elif s in ("use", "use_advidx", "use_boolidx", "use_einsum", "use_as_value"):
+            # every one of these consumes the leaf in an operation that is not a view of it (the view-capable indexing / einsum
+            # ops return copies here; as the value of a set-item the leaf feeds an in-place update)
+            if s == "use":
+                y = x * 2.0
+            elif s == "use_advidx":
+                y = x[np.array([0, 0])]
+            elif s == "use_boolidx":
+                y = x[x.data > 1.5]
+            elif s == "use_einsum":
+                y = mg.einsum("i...->...", x)
+            else:
+                y = mg.tensor(np.zeros(x.shape))
+                y[...] = x
             del y
             have, expected = False, None
+            conn_after = conn
+        elif s == "nullgrad_discview":
+            if not disc:
+                continue
+            v = disc[-1]
+            v.null_grad()
+            cnt["life_view_checks"] = cnt.get("life_view_checks", 0) + 1
+            if v.grad is not None:
+                viol.append({"monitor": "lifecycle", "mech": "null_grad-on-severed-view-keeps-gradient",
+                             "msg": f"step {i}: null_grad() on a view that took part in an earlier backward pass still reads a gradient"})
+                break
             conn_after = conn
         elif s == "useview":
             if not conn:
@@ -257,6 +282,8 @@ def run_life(case, cnt, viol, sets):
                     viol.append({"monitor": "lifecycle", "mech": "view-gradient-wrong",
                                  "msg": f"step {i} ({s}): connected view gradient {None if vg is None else vg.ravel()[:3]} expected {expected[0:1].ravel()[:3]}"})
                     break
+        if s == "backward_view":
+            disc.append(conn[-1])   # the view that was itself back-propagated lost its creator: it is severed from the leaf
         conn = conn_after
         if viol:
             break
